@@ -48,6 +48,10 @@ impl Part {
         self.stranded = s.to_vec();
         self
     }
+    pub fn dim_range(self, name: &str, n: i64) -> Part {
+        let v: Vec<i64> = (0..n).collect();
+        self.dim(name, &v)
+    }
     pub fn cap_s(mut self, s: u64) -> Part {
         self.cap = Duration::from_secs(s);
         self
